@@ -20,7 +20,8 @@ pub fn def() -> CheckDef {
         id: "C03",
         salt: 0xC03,
         rule: "positive: every accepted module among the unit-test snippets, the tests/ corpus entry files, generated executable programs \
-               (gen::prog) and declaration programs (gen::decl) is re-typed expression by expression with rules written from the property \
+               (gen::prog), declaration programs (gen::decl) and a conversion table (every pair of 33 numeric types x {in, out, inout argument, \
+               out argument from a struct member, return, initialiser, assignment}, whatever of it is accepted) is re-typed expression by expression with rules written from the property \
                (oracle::irck) and the IR's own get_type is called on every expression under panic capture; negative: an exhaustive table of \
                scalar kind x vector width x {const local, static const global, const parameter, literal, arithmetic rvalue, call result, \
                repeated-component swizzle} x {=, compound assignments, ++/--, out argument, inout argument}, plus wrong argument counts, \
@@ -252,6 +253,38 @@ pub fn negative_table() -> Vec<Negative> {
     out
 }
 
+/// Conversion table (positive monitor): every pair of numeric types meets at every kind of use that converts -
+/// in / out / inout argument, return, initialiser, assignment. Whatever the type checker accepts must elaborate
+/// to well-typed IR (conversions explicit, out arguments still lvalues of the parameter type).
+pub fn conversion_table() -> Vec<(String, String)> {
+    let kinds = ["bool", "int", "uint", "half", "float", "double"];
+    let mut types: Vec<(String, String)> = Vec::new();
+    for k in kinds {
+        types.push((k.to_string(), value_of(k, 1, 1)));
+        for w in 1..=4usize {
+            let t = format!("{}{}", k, w);
+            types.push((t.clone(), format!("({}){}", t, value_of(k, 1, 1))));
+        }
+    }
+    for m in ["float2x2", "int2x2", "float3x3"] {
+        types.push((m.to_string(), format!("({})1", m)));
+    }
+    let mut out = Vec::new();
+    for (a, av) in &types {
+        for (p, pv) in &types {
+            let id = format!("{}->{}", a, p);
+            out.push((format!("in-argument:{}", id), format!("void sink({} o) {{}}\nvoid test()\n{{\n    {} y = {};\n    sink(y);\n}}\n", p, a, av)));
+            out.push((format!("out-argument:{}", id), format!("void sink(out {} o) {{ o = {}; }}\nvoid test()\n{{\n    {} y = {};\n    sink(y);\n}}\n", p, pv, a, av)));
+            out.push((format!("inout-argument:{}", id), format!("void sink(inout {} o) {{ o = {}; }}\nvoid test()\n{{\n    {} y = {};\n    sink(y);\n}}\n", p, pv, a, av)));
+            out.push((format!("out-argument-member:{}", id), format!("struct Box {{ {} v; }};\nvoid sink(out {} o) {{ o = {}; }}\nvoid test()\n{{\n    Box b;\n    b.v = {};\n    sink(b.v);\n}}\n", a, p, pv, av)));
+            out.push((format!("return:{}", id), format!("{} conv({} y) {{ return y; }}\n", p, a)));
+            out.push((format!("initialiser:{}", id), format!("void test()\n{{\n    {} y = {};\n    {} z = y;\n}}\n", a, av, p)));
+            out.push((format!("assignment:{}", id), format!("void test()\n{{\n    {} y = {};\n    {} z = {};\n    z = y;\n}}\n", a, av, p, pv)));
+        }
+    }
+    out
+}
+
 fn leak(s: String) -> &'static str {
     Box::leak(s.into_boxed_str())
 }
@@ -305,12 +338,14 @@ enum Case {
     Prog(u64),
     Decl(u64),
     Negative(usize),
+    Conversion(usize),
 }
 
 fn run(ctx: &Ctx) -> Report {
     let snippets = corpus::test_snippets();
     let sets = corpus::load();
     let table = negative_table();
+    let conversions = conversion_table();
     let mut cases = Vec::new();
     for i in 0..snippets.len() {
         cases.push(Case::Snippet(i));
@@ -336,8 +371,21 @@ fn run(ctx: &Ctx) -> Report {
             taken += 1;
         }
     }
+    for i in 0..conversions.len() {
+        cases.push(Case::Conversion(i));
+    }
     let seed = ctx.seed;
     let mut report = crate::par::run_cases(ctx, cases.len() as u64, |index, report| match &cases[index as usize] {
+        Case::Conversion(i) => {
+            let (class, text) = &conversions[*i];
+            let kind = class.split(':').next().unwrap_or("");
+            if positive(text, &format!("conversion-table:{}", class), report) {
+                report.distinct(hash_str(text));
+                report.count(&format!("conversion-accepted:{}", kind));
+            } else {
+                report.count(&format!("conversion-rejected:{}", kind));
+            }
+        }
         Case::Snippet(i) => {
             if positive(&snippets[*i], &format!("unit-test-snippet:{}", i), report) {
                 report.distinct(hash_str(&snippets[*i]));
@@ -398,6 +446,7 @@ fn run(ctx: &Ctx) -> Report {
             }
         }
     });
+    report.count_n("conversion_table_size", conversions.len() as u64);
     report.count_n("negative_table_size", table.len() as u64);
     report.count_n("negative_table_taken", taken);
     if stride == 1 {
